@@ -167,14 +167,8 @@ impl Nfa {
     }
 
     pub(crate) fn alternation(&mut self, mut nfa: Nfa) {
-        if self.is_empty() {
-            // If the current NFA is empty, set the start and end states of the current NFA to the
-            // start and end states of the new NFA
-            self.set_start_state(nfa.start_state);
-            self.set_end_state(nfa.end_state);
-            self.states = nfa.states;
-            return;
-        }
+        // Note that an NFA that only matches the empty string is a valid alternative. The caller
+        // initializes `self` with the first alternative (see `try_from_ast`).
 
         // Apply an offset to the state numbers of the given NFA
         let (nfa_start_state, nfa_end_state) = nfa.shift_ids(self.states.len());
@@ -367,9 +361,17 @@ impl Nfa {
                 Ok(nfa)
             }
             Ast::Alternation(ref a) => {
-                for ast in a.asts.iter() {
+                for (index, ast) in a.asts.iter().enumerate() {
                     let nfa2: Nfa = Self::try_from_ast(ast.clone(), char_class_registry)?;
-                    nfa.alternation(nfa2);
+                    if index == 0 {
+                        // The first alternative initializes the NFA, even if it matches only the
+                        // empty string, e.g. in `(|a)b`.
+                        nfa.set_start_state(nfa2.start_state);
+                        nfa.set_end_state(nfa2.end_state);
+                        nfa.states = nfa2.states;
+                    } else {
+                        nfa.alternation(nfa2);
+                    }
                 }
                 Ok(nfa)
             }
